@@ -165,6 +165,9 @@ func c06(r *Report) propMeta {
 	r.Rule("C06.R6", "store-key agreement: every point read/delete addresses a written key family")
 	r.StoreKeyAgreement("store-keys", "feeds", 9, nil)
 
+	r.Rule("C06.R7", "E19 constructors of x/feeds/types store their inputs unchanged")
+	r.CtorFaithful("ctor", faithfulCtors["feeds"]...)
+
 	return propMeta{
 		Decided: []string{
 			"R1 CalculatePrice has exactly the three status exits with guards unsupported*2>total -> UNKNOWN; total<quorum or available==0 or available*2<total -> NOT_READY; else AVAILABLE with the median of the same infos; powerQuorum = trunc(TotalBondedTokens * PriceQuorum); power sums add each info's power to the bucket of its status",
@@ -173,6 +176,7 @@ func c06(r *Report) propMeta {
 			"R4 section table {1,3,7,15,32} strictly increasing ending at the scaling factor 32; multipliers non-increasing; equal lengths",
 			"R5 no map range / float / clock in median.go; both sorts are stable with (time desc, power desc) and (price asc, weight asc) comparators",
 			"R6 every KV-store Get/Has/Delete of x/feeds uses a key builder of x/feeds/types that some Set of the module also uses (a probe of an iteration prefix or of a sibling family is always-empty state)",
+			"R7 the literal constructors of x/feeds/types (frozen list) store each parameter or a constant unchanged in the record they build: what a handler validated is what is stored",
 		},
 		Undecided: []string{"that the weights are the intended ones (section arithmetic values)", "tie behaviour and the >= at the half-weight crossing being the intended choice"},
 		Assume:    []string{"staking IterateBondedValidatorsByPower yields bonded validators only", "sdkmath.Int arithmetic is exact"},
